@@ -79,6 +79,7 @@ class C05:
     id = "C05"
     level = "exploration"
     variants = ("asan",)
+    fuzz_target = "fuzz_roundtrip"
     rule = ("schemas of printable kinds (hand-built and random: INT/FLOAT/BOOL/STR scalars and lists, sections incl. "
             "MULTI|TITLE, KEYSTRVAL) x states produced by random accepted texts and/or random setter sequences (typed "
             "setters at indices, setlist/addlist, setmulti, addtsec with arbitrary titles, setters inside the new sections), "
@@ -167,6 +168,7 @@ class C05:
                         if toks[0][2] == "hash":
                             toks[0][1] = toks[0][1].replace("\n", " ")
                     ops.append(["parse", toks])
+                    handles.clear()      # a parse may replace titled sections: pointers to them are stale afterwards
                     continue
                 secs = [o for o in oo if o["k"] == "sec" and (o["f"] & F_MULTI) and (o["f"] & F_TITLE)]
                 if k == 1 and secs:
@@ -207,6 +209,8 @@ class C05:
                     ops.append(["setmulti", h, name, n if lst else 1] + [hx(draw(strings)) for _ in range(n if lst else 1)])
                 elif k == 8 and lst:
                     ops.append(["parse", [["s", o["n"], "bare"], ["p", "="], ["p", "{"], ["p", "}"]]] if h == 1 else ["set" + kind, h, name, 0, val()])
+                    if h == 1:
+                        handles.clear()
                 else:
                     ops.append(["set" + kind, h, name, idx, val()])
             return {"schema": sc, "flags": flags, "ops": ops}
@@ -214,9 +218,8 @@ class C05:
 
     def run(self, r):
         r.run_hypothesis(30000 if r.tier == "quick" else 1500000)
-        if r.tier == "thorough":
-            import fuzzdrv
-            fuzzdrv.run_fuzz(r, "fuzz_roundtrip", "C05", secs=600)
+        import fuzzdrv
+        fuzzdrv.run_fuzz(r, "fuzz_roundtrip", "C05", secs=20 if r.tier == "quick" else 600, prefix=False)
 
 
 PROP = C05()
